@@ -319,6 +319,12 @@ namespace sqf::parser::sqf::bison
     inline parser::symbol_type yylex (::sqf::runtime::runtime& runtime, ::sqf::parser::sqf::tokenizer& tokenizer)
     {
          auto token = tokenizer.next();
+         // tokens the grammar never sees are skipped in a loop: one stack frame, however many follow each other
+         while (token.type == tokenizer::etoken::m_line || token.type == tokenizer::etoken::i_comment_line
+             || token.type == tokenizer::etoken::i_comment_block || token.type == tokenizer::etoken::i_whitespace)
+         {
+             token = tokenizer.next();
+         }
          parser::location_type loc;
          loc.begin.line = token.line;
          loc.begin.column = token.column;
@@ -330,10 +336,6 @@ namespace sqf::parser::sqf::bison
          {
          case tokenizer::etoken::eof: return parser::make_END_OF_FILE(loc);
          case tokenizer::etoken::invalid: return parser::make_INVALID(loc);
-         case tokenizer::etoken::m_line: return yylex(runtime, tokenizer);
-         case tokenizer::etoken::i_comment_line: return yylex(runtime, tokenizer);
-         case tokenizer::etoken::i_comment_block: return yylex(runtime, tokenizer);
-         case tokenizer::etoken::i_whitespace: return yylex(runtime, tokenizer);
          
          case tokenizer::etoken::t_false: return parser::make_FALSE(token, loc);
          case tokenizer::etoken::t_private: return parser::make_PRIVATE(token, loc);
